@@ -737,8 +737,9 @@ theorem handleInput_answers (w : W) (c : Cli) :
 
 /-! ### C06: the only way out is the sort assertion -/
 
-/-- `hostlist_sort` never trips `assert(hostrange_cmp(h1, h2) <= 0)` (known finding F19 says it can) -/
-def NoSortAbort : Prop := ∀ hl, sortHL hl ≠ .abort
+/-- `hostlist_sort` never trips `assert(hostrange_cmp(h1, h2) <= 0)` (known finding F19 says it can) — nor, in the logic,
+    exhausts the iteration bound of its mirror (`SortRes.Died` covers both; the second is a modelling artefact) -/
+def NoSortAbort : Prop := ∀ hl, ¬ (sortHL hl).Died
 
 theorem parseLine_exited (hs : NoSortAbort) (w : W) (c : Cli) (line : Bytes) : (parseLine w c line).1.exited = w.exited := by
   cases parseLine_shape w c line with
@@ -1178,7 +1179,7 @@ theorem finalReply_forged :
 /-- a request line ends the process only through the sort assertion: on the configured node list (`nodes`) or on the
     plug list of a device (`device`) -/
 theorem parseLine_exit_cause (w : W) (c : Cli) (line : Bytes) (h : (parseLine w c line).1.exited = true) :
-    w.exited = true ∨ sortHL w.cfg.nodes = .abort ∨ ∃ nd ∈ w.devs, sortHL (devHosts nd.2) = .abort := by
+    w.exited = true ∨ (sortHL w.cfg.nodes).Died ∨ ∃ nd ∈ w.devs, (sortHL (devHosts nd.2)).Died := by
   cases parseLine_shape w c line with
   | exit _ cause => exact Or.inr cause
   | reply items shape out buf cmd ex clean prompted => exact Or.inl (ex ▸ h)
